@@ -93,6 +93,36 @@ def scalars_case(ctx, idx, rng):
             _close(ctx, 'operator_density_average', ptn.operator_density_average(rho, H), np.trace(mH @ mr), ts(H) * ts(rho), detail)
 
 
+def bond_gauge_case(ctx, idx, rng):
+    """Operator and states in a badly scaled BOND BASIS: a diagonal gauge by exact powers of two (up to 2**+-60 between the channels of one bond) on the
+    interior bonds of H, psi and chi. The objects are unchanged bit for bit (dense references are taken BEFORE the gauge), every product of matching entries
+    is the same number as before, so all scalars must come out as accurately as without the gauge: tolerances use the natural scales of the ungauged
+    tensors. (Entries of an environment block that are 1e-16 of the block are not noise here -- the neighbouring tensor re-amplifies them.)"""
+    L, d, qd, H, psi, chi, src, herm = _setup(rng, Lmax=5)
+    if L < 2:
+        ctx.case(('bond-gauge', 'single-site'), nontrivial=False)
+        return
+    for T in (H, psi, chi):
+        T.A = [np.array(a, dtype=complex if np.iscomplexobj(a) else float) for a in T.A]
+    vp, vc, mH = refs.dense_state(psi.A), refs.dense_state(chi.A), refs.dense_operator(H.A)
+    ts = lambda T: float(np.prod([max(np.linalg.norm(a), 1e-300) for a in T.A]))
+    np_, nc, nH = ts(psi), ts(chi), ts(H)
+    which = ('operator', 'states', 'all')[idx % 3]
+    big = 0
+    if which in ('operator', 'all'):
+        big = max(big, gen.bond_gauge_pow2(rng, H))
+    if which in ('states', 'all'):
+        big = max(big, gen.bond_gauge_pow2(rng, psi), gen.bond_gauge_pow2(rng, chi))
+    ctx.case(('bond-gauge', f'L{L}', f'd{d}', src, which, 'range>=2^45' if big >= 45 else ('range>=2^20' if big >= 20 else 'no-gauge-drawn')),
+             nontrivial=big > 0, sample={'qd': qd, 'qD_H': H.qD, 'gauge_on': which, 'largest_exponent': big})
+    detail = {'qd': qd, 'psi': {'qD': psi.qD, 'A': psi.A}, 'chi': {'qD': chi.qD, 'A': chi.A}, 'H': {'qD': H.qD, 'A': H.A}, 'gauge_on': which}
+    with monitor.write_protected(psi, chi, H):
+        _close(ctx, 'vdot[bond-gauge]', ptn.vdot(chi, psi), np.vdot(vc, vp), np_ * nc, detail)
+        _close(ctx, 'norm[bond-gauge]', ptn.norm(psi), float(np.linalg.norm(vp)), np_, detail)
+        _close(ctx, 'operator_average[bond-gauge]', ptn.operator_average(psi, H), np.vdot(vp, mH @ vp), nH * np_ ** 2, detail)
+        _close(ctx, 'operator_inner_product[bond-gauge]', ptn.operator_inner_product(chi, H, psi), np.vdot(vc, mH @ vp), nH * np_ * nc, detail)
+
+
 def _ldexp(z, k):
     z = complex(z)
     return complex(np.ldexp(z.real, k), np.ldexp(z.imag, k))
@@ -459,6 +489,7 @@ SPEC = {
     'workloads': [
         Workload('scalars', scalars_case, quick=500, thorough=64000),
         Workload('extreme-scales', extreme_scale_case, quick=300, thorough=30000),
+        Workload('bond-gauge', bond_gauge_case, quick=300, thorough=30000),
         Workload('long-chain', long_chain_case, quick=40, thorough=3000),
         Workload('huge-bonds', huge_bond_case, quick=8, thorough=320),
         Workload('suite-soak', soak_case, quick=0, thorough=1, shardable=False),
